@@ -13,8 +13,7 @@ open Revm.Proofs.Frame (Good DbBal)
 open Revm.Proofs.Journal (Grows)
 
 /-- the failures that are NOT excluded here: they concern the interpreter (C25: its per-frame invariant has to be
-threaded through `makeFrame` / `insert_*_outcome`), the environment (`already checked`: a Cancun block without blob gas
-price; `initcode_cost`: an initcode of 2^64 words), and the fuel -/
+threaded through `makeFrame` / `insert_*_outcome`), and the fuel -/
 def Resid (e : Err) : Prop :=
   (∃ f : Interp.Fault, e = .panic s!"interpreter: {f.name}") ∨
   (∃ f : Interp.Fault, e = .panic s!"insert outcome: {f.name}") ∨
@@ -22,7 +21,6 @@ def Resid (e : Err) : Prop :=
   e = .panic "unsupported: Action.eofCreate (EOF frames are not modelled)" ∨
   e = .panic "unexpected internal return flag" ∨
   e = .panic "sload" ∨ e = .panic "sstore" ∨ e = .panic "selfdestruct" ∨
-  e = .panic "already checked" ∨ e = .panic "initcode_cost" ∨
   e = .outOfFuel
 
 /-- `x` succeeds with a value satisfying `P`, or fails softly, or with a residual failure -/
